@@ -172,8 +172,18 @@ func (s *ulogState) OnBool(ctx gotype.UnfoldCtx, b bool) error { return s.note(c
 func (s *ulogState) OnString(ctx gotype.UnfoldCtx, v string) error {
 	return s.note(ctx, 1000+int16(len(v)))
 }
-func (s *ulogState) OnInt(ctx gotype.UnfoldCtx, v int64) error     { return s.note(ctx, int16(int8(v))) }
-func (s *ulogState) OnUint(ctx gotype.UnfoldCtx, v uint64) error   { return s.note(ctx, int16(int8(v))) }
+func (s *ulogState) OnInt(ctx gotype.UnfoldCtx, v int64) error {
+	if v < -128 || v > 127 {
+		return s.note(ctx, 5000) // not a value any harness stream carries as a signed event
+	}
+	return s.note(ctx, int16(v))
+}
+func (s *ulogState) OnUint(ctx gotype.UnfoldCtx, v uint64) error {
+	if v > 127 {
+		return s.note(ctx, 6000) // not a value any harness stream carries as an unsigned event
+	}
+	return s.note(ctx, int16(v))
+}
 func (s *ulogState) OnFloat(ctx gotype.UnfoldCtx, v float64) error { return s.note(ctx, -3) }
 func (s *ulogState) OnArrayStart(ctx gotype.UnfoldCtx, l int, bt structform.BaseType) error {
 	s.to.log = append(s.to.log, 2000)
@@ -232,12 +242,23 @@ func UNFOLD_UserState(h *rt.H) {
 		}
 	}
 	shape := h.Choose("shape", 0, 6)
+	intKind := 0
+	if shape == 0 {
+		intKind = h.Choose("intkind", 0, 10)
+	}
 	var want []int16
 	value := func() {
 		switch shape {
 		case 0:
-			step(v.OnInt8(x))
-			want = []int16{int16(x)}
+			// every integer event kind; signed kinds carry x (-128..127), unsigned
+			// kinds x&0x7f: the user state must see exactly that value
+			k := intKind
+			val := int64(x)
+			if k >= 5 {
+				val = int64(x) & 0x7f
+			}
+			step(callScalar(k, uint64(val), v))
+			want = []int16{int16(val)}
 		case 1:
 			step(v.OnString("abc"))
 			want = []int16{1003}
